@@ -344,6 +344,13 @@ def build_unit(template, repo, out_path, contracts_dir=None, vacuity=False):
                 e = match_close(m, e)
             text = rule_R2(src[hit.start():e + 1], counts)
             text = re.sub(r"\bpub\s*\(crate\)\s*", "pub ", text)
+            if "pubfields" in opts:
+                # R2 (visibility has no semantics): make every named field public so that public
+                # contracts may mention it
+                head, brace, rest = text.partition("{")
+                rest = re.sub(r"(?m)^(\s*)(?:pub\s*(?:\([^)]*\))?\s+)?(\w+)\s*:", r"\1pub \2:", rest)
+                text = head + brace + rest
+                counts["R2"] = counts.get("R2", 0) + 1
             if "derive" in opts:
                 # take the derive attribute immediately preceding the item, if any
                 pre = src[:hit.start()]
